@@ -277,7 +277,10 @@ fn run_sequence_after(departed: &[(Vec<String>, bool)], who: Who, lines: &[(Stri
         }));
         match pr {
             Ok((a, b)) => {
-                if a.resp != "Ok" || b.pushed != vec![format!("value {}\n", val)] {
+                // (an administrator who stored a permission list for all token sessions may have taken the probe's access
+                // away: a refusal for lack of permission is an orderly answer there)
+                let restricted = line.1.ends_with("after-a-permission-record-stored-as-a-plain-key") && (a.resp.contains("permission denied") || b.resp.contains("permission denied"));
+                if !restricted && (a.resp != "Ok" || b.pushed != vec![format!("value {}\n", val)]) {
                     trace.push(json!({"probe": [a.resp, b.resp, b.pushed]}));
                     report(v, "probe-client-failed", line, format!("{} / {}", a.resp.chars().take(60).collect::<String>(), b.resp.chars().take(60).collect::<String>()), &trace);
                     break 'seq;
@@ -408,6 +411,28 @@ pub fn run(tier: &str) -> i32 {
                         departed_cases.push((departed, who, writes.iter().map(|l| (l.to_string(), format!("{}/after-departed-sessions", l.split(' ').next().unwrap()))).collect()));
                     }
                 }
+            }
+        }
+    }
+    // records that an administrator (or a link, or an older data file) stored as plain keys, not through the command
+    // that validates them: permission lists, user tokens, the database token, the connection counter. Every later
+    // command of every other session reads them
+    {
+        let records = ["rwd *", "q", "rwix *|z a*", "", "|", "||", "r", "\u{20ac} *", "R *", "rw", "r *|", " ", "* rw", "rwix", "r k|w k|i n|x k|? *", "7 *", "r\t*"];
+        let uses = ["get k", "set k v", "remove k", "increment n 1", "watch k", "keys", "keys k*", "set-safe k 0 x", "get-safe k", "use-db db pu pw", "get k", "set k v2", "increment n", "remove k", "watch n", "unwatch-all", "create-user x y", "arbiter"];
+        for rec in records.iter() {
+            for how in ["set {} {}", "set-safe {} 0 {}", "replicate db {} 3 {}", "rp 77 replicate db {} 3 {}"] {
+                let store = |k: &str| how.replacen("{}", k, 1).replacen("{}", rec, 1).trim_end().to_string();
+                let admin: Vec<String> = vec!["auth admin pwd".into(), "use-db db tok".into(), "create-user pu pw".into(), store("$$permission_$all"), store("$$permission_$pu"), store("$$permission_$"), "set k 1".into(), "set n 1".into()];
+                for who in [Who::Token, Who::Anon] {
+                    departed_cases.push((vec![(admin.clone(), true)], who, uses.iter().map(|l| (l.to_string(), format!("{}/after-a-permission-record-stored-as-a-plain-key", l.split(' ').next().unwrap()))).collect()));
+                }
+            }
+        }
+        for (key, vals) in [("$$user_pu", vec!["", " ", "a b", "\u{0}"]), ("$$token", vec!["t2", "a b"]), ("$connections", vec!["x", "-5", "2147483647", ""])] {
+            for val in vals {
+                let admin: Vec<String> = vec!["auth admin pwd".into(), "use-db db tok".into(), "create-user pu pw".into(), format!("set {} {}", key, val).trim_end().to_string(), "set k 1".into()];
+                departed_cases.push((vec![(admin, true)], Who::Token, uses.iter().map(|l| (l.to_string(), format!("{}/after-a-system-record-stored-as-a-plain-key", l.split(' ').next().unwrap()))).collect()));
             }
         }
     }
